@@ -220,7 +220,9 @@ SSinkOp(o, op, res, unflushed) ==
 
 SPollStart(o) ==
   LET o1 == StaleGuards(o, o.staleG) IN
-  [o1 EXCEPT !.relInPoll = o.relPend \/ o.staleG # {}, !.relPend = FALSE, !.staleG = {}, !.nextInPoll = FALSE,
+  \* a queued guard cancellation is consumed by this poll or a later one: the channel takes one per loop turn and
+  \* returns at once when it has read a request, so relPend stays up until a poll ran to Pending (SPollEnd)
+  [o1 EXCEPT !.relInPoll = o.relPend \/ o.staleG # {}, !.staleG = {}, !.nextInPoll = FALSE,
              !.lastflush = "none", !.read = NoRead, !.lastRP = FALSE, !.f6poll = FALSE, !.f7poll = FALSE]
 
 (* the end of a channel poll: expiry bookkeeping and count checks *)
@@ -261,7 +263,7 @@ SPollEnd(o, res, infl, timers) ==
   IN [o7 EXCEPT !.read = NoRead,
                 !.guardIds = IF res = "pending" /\ ~f6now THEN {} ELSE @,
                 \* a poll that never reached the inner channel has not processed pending releases
-                !.relPend = IF f6now /\ o.relInPoll THEN TRUE ELSE @]
+                !.relPend = IF res = "pending" /\ ~f6now THEN FALSE ELSE @]
 
 SPoint(o, kind, inq, writable, alive, infl, timers) ==
   [o EXCEPT !.pt = [kind |-> kind, inq |-> inq, writable |-> writable, alive |-> alive,
